@@ -94,6 +94,39 @@ def run(ctx):
     cases.append((_mk_stream(rng, packets, [1018] * 32, 0), 4096, 0, 24 * 1024))      # 1 KiB packets, flushed at a block and packet boundary
     cases.append((b"", 0, 0, 0))
     fc.os_sources_section(ctx, "C10", cases)
+    # ---- the definition's generator with segment combining on interleaved, truncated multi-APID streams: it terminates and nothing
+    # but its items comes out (what is combined is C12's business)
+    import io
+    import warnings
+    from harness import defs as _defs
+    hd = _defs.header_only_definition()
+    ncomb = 0
+    for i in range(150 if q else 1500):
+        n_ = rng.randint(1, 14)
+        stream = b"".join(_defs.mk_packet(bytes(rng.getrandbits(8) for _ in range(rng.randint(1, 5))), apid=rng.choice([1, 2, 3]),
+                                          flags=rng.randrange(4), seq=rng.randrange(16384)) for _ in range(n_))
+        if i % 2:
+            stream = stream[:rng.randrange(len(stream) + 1)]
+        src = (stream, io.BytesIO(stream))[i % 3 == 0]
+        got, outcome = 0, "stop"
+        with warnings.catch_warnings():
+            warnings.simplefilter("ignore")
+            try:
+                for _ in hd.packet_generator(src, combine_segmented_packets=True, secondary_header_bytes=rng.choice([0, 0, 2]),
+                                             parse_bad_pkts=bool(i % 5), yield_unrecognized_packet_errors=bool(i % 7 == 0)):
+                    got += 1
+                    if got > n_ + 2:
+                        outcome = "abort"
+                        break
+            except Exception as e:  # noqa: BLE001
+                outcome = "raise:" + type(e).__name__
+        ncomb += 1
+        ctx.traces += 1
+        ctx.count(("combine", stream, i % 3 == 0))
+        if outcome != "stop":
+            ctx.violation("C10/combine/" + outcome.split(":")[0], f"packet_generator(combine_segmented_packets=True) over {n_} interleaved packets of 3 APIDs "
+                          f"({len(stream)} bytes): {outcome} after {got} items", {"data": list(stream), "kind": "combine"})
+    ctx.extra["combine_streams"] = ncomb
     # ---- show_progress=True must not change how a source is framed or how the generator ends (empty input, truncation, early close)
     pcases = []
     for kind in ("bytes", "file", "rfile", "sock"):
